@@ -191,11 +191,13 @@ class Day:
         if s in ("jdn", "julian"):
             return (self.jdn_text(),)
         if s == "%db":
-            # business day of the month; undefined (None) on weekends
-            if self.wd >= 5:
-                return None
+            # business day of the month; a Saturday or Sunday counts like the Friday before it (that is how weekend
+            # days are written in the business-day calendar), 00 when the month begins with it
             from . import dur
-            return ("%02db" % dur.bday_index(self.o),)
+            o = self.o - (self.wd - 4 if self.wd >= 5 else 0)
+            if Day(o).m != self.m:
+                return ("00b",)
+            return ("%02db" % dur.bday_index(o),)
         if s == "%dth":
             return ("%d%s" % (self.d, ordinal_suffix(self.d)),)
         if s == "%mth":
